@@ -72,6 +72,12 @@ static SINK: Lazy<Mutex<Sink>> = Lazy::new(|| {
 thread_local! {
     static CTL_ID: Cell<u64> = const { Cell::new(0) };
     static CUR_TASK: Cell<u64> = const { Cell::new(0) };
+    static FREE_ID: Cell<u64> = const { Cell::new(0) };
+}
+
+/// Give the calling (uncontrolled, free-running) thread an identity for the `who` field of events
+pub fn name_thread(id: u64) {
+    FREE_ID.with(|c| c.set(id));
 }
 
 /// Switch recording on or off
@@ -91,6 +97,10 @@ fn who() -> String {
     let k = CUR_TASK.with(|c| c.get());
     if k != 0 {
         return format!("k{k}");
+    }
+    let f = FREE_ID.with(|c| c.get());
+    if f != 0 {
+        return format!("t{f}");
     }
     "x".to_string()
 }
